@@ -31,10 +31,11 @@ def _solver(base, timeout_ms):
 
 
 def _check(base, neg, timeout_ms):
+    from .sym import zcheck
     s = _solver(base, timeout_ms)
     s.add(neg)
     t0 = time.time()
-    r = s.check()
+    r = zcheck(s, timeout_ms)
     dt = time.time() - t0
     m = s.model() if r == z3.sat else None
     return str(r), m, dt, s
